@@ -203,7 +203,7 @@ def senderProgram : List Tok := soloSender.flatMap SPc.toks
 
 def LPc.toks : LPc → List Tok
   | .idle => []
-  | .drain => [.readEfd, .queueMove]
+  | .drain => [.readEfd, .cont, .cont, .queueMove]   -- read loop: `continue` on a full buffer and on EINTR
   | .scan _ => [.queuePop, .xchg .pending 0, .ifEq0, .cont, .cbNullCheck, .cont]
   | .inCb _ => [.callback]
   | .closeStore _ _ => [.store .pending 1]
@@ -222,7 +222,8 @@ def soloClose : List LPc :=
 
 def spinProgram : List Tok := soloClose.flatMap LPc.toks
 def closeProgram : List Tok := [.spin, .unlink, .handleStop]
-def wakeupProgram : List Tok := [.writeEfd]
+/-- uv__async_send: write (retried on EINTR); return when written; return on EAGAIN; else abort -/
+def wakeupProgram : List Tok := [.writeEfd, .ret, .ret]
 
 /-! ## enabledness (what the scheduler calls runnable) -/
 def enabled (s : State) (a : Act) : Bool := (step? s a).isSome
